@@ -28,7 +28,7 @@ TOO_LARGE = 141        # 4.13
 # the server violates a sequencing rule the property names -> the client must end with an error
 MUST_ERROR = {"wrongnum1", "more_on_final", "continue_on_final", "b1_unfrag_more",
               "b1_unfrag_wrongnum", "etag_change", "short_block", "long_block", "gap", "dup",
-              "unscaled", "first_nonzero"}
+              "unscaled", "first_nonzero", "first_late_final", "code_change"}
 # unusual but conforming behaviour -> the transfer must still deliver both bodies
 MUST_SUCCEED = {None, "stateless_acks", "grow_szx"}
 # deviations the client deliberately accepts (it passes the server's response on); only the
@@ -64,6 +64,7 @@ class RefServer:
                      self.etag if etag == "same" else etag, rep[off:off + size])
 
     def _respond(self, body, ack, reqb2, choice):
+        self.responded = True
         self.buf = b""
         self.recorded.append(body)
         cszx, explicit = choice
@@ -181,6 +182,23 @@ class RefServer:
         elif k == "first_nonzero":
             if not cont and rep.block2 is not None and rep.block2[1] and self._hit():
                 return rep._replace(block2=(1 + self.mis.get("delta", 0),) + rep.block2[1:])
+        elif k == "first_late_final":
+            # the answer to the plain request is labelled as a later, last block (tail of the body)
+            if not cont and self.responded and self._hit():
+                szx = rep.block2[2] if rep.block2 is not None else min(choice[0], 6)
+                num = 1 + self.mis.get("delta", 0)
+                tail = self.rep[num * (16 << szx):][:16 << szx] or self.rep[-(16 << szx):] or b"tail"
+                return rep._replace(block2=(num, False, szx), payload=tail)
+        elif k == "code_change":
+            # a continuation block arrives with another response code than the first block
+            if cont and rep.block2 is not None and self._hit():
+                code = self.mis.get("code", 132)
+                if code == self.code:
+                    code = 132 if self.code != 132 else 160
+                if self.mis.get("diag", True):
+                    return rep._replace(code=code, block2=(rep.block2[0], False, rep.block2[2]),
+                                        payload=b"it is gone"[:16 << rep.block2[2]])
+                return rep._replace(code=code)
         elif k == "drop_block2":
             if cont and rep.block2 is not None and self._hit():
                 return rep._replace(block2=None)
@@ -198,5 +216,6 @@ class RefServer:
         self.exchanges += 1
         choice = tuple(self.choices[idx]) if idx < len(self.choices) else tuple(self.default_choice)
         self.used_choices.append(choice)
+        self.responded = False
         rep = self._honest(req, choice)
         return self._misbehave(req, rep, choice)
